@@ -5,11 +5,11 @@ package main
 import (
 	"encoding/json"
 	"flag"
-	"strings"
 	"fmt"
 	"os"
 	"sort"
 	"strconv"
+	"strings"
 
 	"verif/checker/core"
 	_ "verif/checker/rules"
@@ -119,13 +119,13 @@ func printManifest() {
 			rs = append(rs, r.ID+" ("+r.Title+")")
 		}
 		checks = append(checks, obj{
-			"property_id":   id,
-			"quick_cmd":     "./check.sh " + id + " quick",
-			"thorough_cmd":  "./check.sh " + id + " thorough",
-			"evidence_file": "/verif/evidence/" + id + ".json",
+			"property_id":         id,
+			"quick_cmd":           "./check.sh " + id + " quick",
+			"thorough_cmd":        "./check.sh " + id + " thorough",
+			"evidence_file":       "/verif/evidence/" + id + ".json",
 			"replay_cmd_template": "./bin/verifcheck -property " + id + " -explain {path}",
-			"engine":        "verifcheck",
-			"technique":     "static analysis: repository-specific rules over go/types-resolved AST, constant-table evaluation, go/cfg dominators and go/ssa value flow; no execution",
+			"engine":              "verifcheck",
+			"technique":           "static analysis: repository-specific rules over go/types-resolved AST, constant-table evaluation, go/cfg dominators and go/ssa value flow; no execution",
 			"level_claimed": obj{
 				"category":   "other",
 				"text":       "Structural necessary conditions only. " + p.Decided + " The property quantifies over run-time values, so static analysis decides these named conditions, each of which must hold for the behaviour to hold, and nothing more. Rules: " + strings.Join(rs, "; ") + ".",
@@ -144,7 +144,7 @@ func printManifest() {
 			"source_commits":   []string{},
 			"add_only":         true,
 		},
-		"engines": []obj{{"name": "verifcheck", "path": "/verif/checker", "serves_properties": served, "kind_free_text": "custom static analyser (Go, golang.org/x/tools v0.29.0): go/packages loader over three build configurations, constant-table evaluator, byte-dispatch partitioner, CFG dominance, SSA value flow, sibling normal forms; self-test on patched scratch copies in the thorough tier"}},
+		"engines":        []obj{{"name": "verifcheck", "path": "/verif/checker", "serves_properties": served, "kind_free_text": "custom static analyser (Go, golang.org/x/tools v0.29.0): go/packages loader over three build configurations, constant-table evaluator, byte-dispatch partitioner, CFG dominance, SSA value flow, sibling normal forms; self-test on patched scratch copies in the thorough tier"}},
 		"checks":         checks,
 		"not_applicable": na,
 		"notes":          "Every claim is level `other`: named structural necessary conditions decided from source on every run (see DESIGN.md §0). Genuine defects that are not repaired are listed in /verif/known_findings.json and printed as KNOWN-FINDING lines; fixed ones are recorded there as `fixed:` lines.",
